@@ -173,8 +173,15 @@ def run(p, led, tier):
                 raise AnchorError(f"abstract interpretation of {m.qual} from {start} is imprecise: {e}")
             total_paths += len(paths)
             table[(m.name, start)] = paths
+            # the same method with observers that return or raise (A3): whatever they do, every phase write must still be an
+            # edge of the automaton (an observer's exception may not undo or veto a transition)
+            try:
+                lpaths = explore(lambda o: run_method(o, m, start, {"on_phase_change": Unknown("on_phase_change"), "on_senescence": Unknown("on_senescence")}))
+            except Imprecise as e:
+                raise AnchorError(f"abstract interpretation of {m.qual} from {start} with observers is imprecise: {e}")
+            total_paths += len(lpaths)
             edges = set()
-            for _, r in paths:
+            for _, r in list(paths) + list(lpaths):
                 for ev in r["writes"]:
                     if ev[2] == PH:
                         a = ev[3].name if hasattr(ev[3], "name") else repr(ev[3])
